@@ -22,7 +22,7 @@ RULE = ('seeded worlds (2-8 segments, 1-4 channels, some with identical shapes s
         'of that handle - or, in a third of those worlds, the caller is interrupted there (KeyboardInterrupt) and goes on using the handle - (the read that meets it may fail, every later read must still be right); in 30% of worlds a second file - a sibling with the same objects, sizes and lengths but another distribution over the segments, or an unrelated file with the same paths - is open at the same time and read in between. distinct = distinct abstract traces [(action, generator '
         'kind, op kind)...] x world shape; non-trivial = at least one generator was advanced with another '
         'action interleaved between two of its yields')
-EXPECTED_PROBES = ['chunk-first-looked-at-late', 'caller-scribbled-on-result', 'interrupt:op-raised', 'truncated-file', 'second-file-op', 'eio:op-raised', 'eio:generator-hit', 'scaled-channel', 'read-between-file-chunks', 'two-generators-same-channel', 'abandoned-then-new',
+EXPECTED_PROBES = ['caller-moved-its-stream', 'chunk-first-looked-at-late', 'caller-scribbled-on-result', 'interrupt:op-raised', 'truncated-file', 'second-file-op', 'eio:op-raised', 'eio:generator-hit', 'scaled-channel', 'read-between-file-chunks', 'two-generators-same-channel', 'abandoned-then-new',
                    'index-cache-hit-after-other-read', 'generator-drained-at-end']
 MAX_LIVE = 8
 
@@ -72,6 +72,10 @@ def gen_actions(rng, w, nmax=60, w2=None):
     n = rng.randint(5, nmax)
     for _ in range(n):
         r = rng.random()
+        if rng.random() < 0.04:
+            # the caller uses the stream it handed to TdmsFile.open itself in between (hashes it, peeks at the header)
+            acts.append({'a': 'touch', 'frac': rng.random()})
+            continue
         if chans2 and rng.random() < 0.3:
             # the same kinds of reads on the other open file
             acts.append(gen_op(rng, w2, rng.choice(chans2), kind='bop'))
@@ -316,6 +320,15 @@ def execute(case):
                     last_advanced = a['id']
                     for k in other_read_since:
                         other_read_since[k] = True
+                elif a['a'] == 'touch':
+                    if hasattr(src, 'seek') and hasattr(src, 'read'):
+                        try:
+                            src.seek(int(a['frac'] * len(w.data)))
+                            src.read(4)
+                            res.probe('caller-moved-its-stream')
+                        except (OSError, ValueError, KeyboardInterrupt):
+                            pass          # the injected transient fault may meet the caller's own read
+                    res.ev(step, 'touch')
                 elif a['a'] == 'bop':
                     if tf2 is None or a['ch'] not in fulls2:
                         continue
